@@ -13,15 +13,17 @@ structure Batch where
   idx : Nat
   r : Nat
   elems : List (Elem Val)
+  pull : Bool := true      -- `b` = send and pull until the timeout FlushBatch; `q` = send only
 
 def parseBatches (ops : List (List String)) : List Batch :=
   (ops.zipIdx).filterMap fun (w, i) =>
     match w with
-    | "b" :: r :: es =>
+    | op :: r :: es =>
+      if op != "b" && op != "q" then none else
       match r.toNat? with
       | some r =>
         let elems := es.filterMap parseElem
-        if elems.isEmpty then none else some ⟨i, r, elems⟩
+        if elems.isEmpty then none else some ⟨i, r, elems, op == "b"⟩
       | none => none
     | _ => none
 
@@ -31,16 +33,21 @@ def modelOut (n : Nat) (bs : List Batch) : List String := Id.run do
   let mut s := Noir.Start.init n
   let mut out : List String := []
   let mut done := false
+  -- elements of queued batches are consumed by the next pulling batch and carry its index
+  let mut pendingEl : List (Nat × Elem Val) := []
   for b in bs do
     if done || b.r ≥ n then continue
-    for e in b.elems do
+    pendingEl := pendingEl ++ b.elems.map (fun e => (b.r, e))
+    if !b.pull then continue
+    for (r, e) in pendingEl do
       if done then continue
-      let (s', o) := Noir.Start.step s (Arrival.elem b.r e)
+      let (s', o) := Noir.Start.step s (Arrival.elem r e)
       s := s'
       for x in o do
         if done then continue
         out := s!"{b.idx} {elemToStr x}" :: out
         if x.isTerm then done := true
+    pendingEl := []
     if !done then
       let (s', o) := Noir.Start.step s (Arrival.timeout : Arrival Val)
       s := s'
@@ -55,6 +62,51 @@ def parseImpl (l : List String) : Option (List (Elem Val)) :=
 /-- last watermark in `out` after the last `far` -/
 def lastWmInIter (out : List (Elem Val)) : Option Int :=
   out.foldl (fun acc e => match e with | .far => none | .wm t => some t | _ => acc) none
+
+/-- C06/C17 "only the minimum is forwarded": every watermark the block emits must be a value the
+    specification frontier takes at some arrival up to the end of the pull that emitted it (no
+    premature, too large or invented watermark). `groups` = arrivals grouped by the index of the pull
+    that consumed them. Returns the first offending watermark. -/
+def forwardedOnlyMin (n : Nat) (bs : List Batch) (implLines : List String) : Option String := Id.run do
+  -- spec frontier values reached up to the end of each pull index
+  let mut s : InSt := InSt.init n
+  let mut seen : List Int := []            -- frontier values seen in the current iteration so far
+  let mut perIdx : List (Nat × List Int) := []
+  let mut pendingB : List Batch := []
+  for b in bs do
+    pendingB := pendingB ++ [b]
+    if !b.pull then continue
+    for pb in pendingB do
+      for e in pb.elems do
+        match inStep s pb.r e with
+        | some s' =>
+          s := s'
+          match specFront s with
+          | some f => seen := f :: seen
+          | none => pure ()
+        | none => pure ()
+    perIdx := perIdx ++ [(b.idx, seen)]
+    pendingB := []
+  let mut bad : Option String := none
+  let mut lastIdx := 0
+  let mut emittedThisIter : List Int := []
+  for l in implLines do
+    match words l with
+    | [i, e] =>
+      match i.toNat?, parseElem e with
+      | some i, some (.wm w) =>
+        let allowed := (perIdx.filter (fun p => p.1 ≤ i)).flatMap (·.2) ++
+                       ((perIdx.find? (fun p => p.1 == i)).map (·.2)).getD []
+        -- values of earlier iterations are still in `allowed` of earlier indices; that is fine: the
+        -- check is that the value was a frontier value by the end of its own pull
+        let okNow := ((perIdx.filter (fun p => p.1 ≤ i)).any (fun p => p.2.contains w))
+        if !okNow && bad.isNone then
+          bad := some s!"watermark {w} emitted at pull {i} is not a value of the minimum over the active replicas up to that point (allowed so far: {allowed.eraseDups.take 8})"
+        lastIdx := i
+        emittedThisIter := w :: emittedThisIter
+      | _, _ => pure ()
+    | _ => pure ()
+  return bad
 
 /-- C17 oracle: at every data element the last watermark observed in the current iteration equals
     the spec frontier at the moment the element arrived. Returns the first discrepancy. -/
@@ -130,11 +182,14 @@ def handle (c : Case) : Verdict :=
           let f17 := match progressCheck n bs implNoFb with
             | some msg => ["[C17] " ++ msg]
             | none => []
-          let all := f06 ++ f05 ++ f17
+          let fmin := match forwardedOnlyMin n bs c.implOut with
+            | some msg => ["[C06] " ++ msg, "[C17] " ++ msg]
+            | none => []
+          let all := f06 ++ f05 ++ f17 ++ fmin
           if all.isEmpty then none else some (" ;; ".intercalate all)
       let nWm := (bs.foldl (fun acc b => acc + (b.elems.filter (fun e => match e with | .wm _ => true | _ => false)).length) 0)
       { out, oracle := oracle.map (fun m => if m.startsWith "known:" then m else m),
-        nontrivial := valid && n ≥ 2 && bs.length ≥ 3,
+        nontrivial := valid && n ≥ 2 && bs.length ≥ 3 && nWm > 0,
         tags := [s!"n{min n 4}", if valid then "valid" else "invalid", if nWm > 0 then "wm" else "nowm",
                  if inputComplete n bs then "complete" else "incomplete"] }
     | none => { out := [], oracle := some "bad header", nontrivial := false }
